@@ -1,3 +1,8 @@
+(* ADDED IN THE THIRD ROUND (ReadOnly.v): make_read_only end to end from any append-only writer state — exact oplog file, observations, reopen read-only,
+   second call, every cut, and the regression of the repaired defect D25 (C12_secret_gone_after_any_completed_call). Since that repair the call
+   rewrites both slots also on a read-only instance; the sentence 'make_read_only on such a core returns false and changes nothing' below now
+   reads: returns false and changes no observation (C12_second_call_changes_no_observation).
+   ---- header of the earlier rounds: ---- *)
 (* C12 — secret key hygiene (pinned statements; proofs in CoreFacts.v).
    Proved for every state: append on a core without secret key returns NotWritable and changes NOTHING (same
    core, same disk, empty journal delta, no event); make_read_only on such a core returns false and changes
@@ -10,14 +15,24 @@
    enc_entry / node / page codecs); tools/c12.py searches the raw bytes of all four files for every 16-byte
    window of the key and enumerates all crash points inside make_read_only. *)
 From HC Require Import Base NMap Codec Crypto FlatTree Storage Bitfield Oplog Merkle Core CoreFacts.
+From HC Require Import Refine Reopen ReadOnly.
 
 Theorem C12_not_writable : forall cr f batch c w,
   kp_secret (c_keypair c) = None -> core_append cr f batch c w = (c, w, Err NotWritable).
 Proof. exact append_not_writable. Qed.
 
-Theorem C12_second_call_noop : forall cr c w,
-  kp_secret (c_keypair c) = None -> core_make_read_only cr c w = (c, w, Ok false).
-Proof. exact make_read_only_noop. Qed.
+(* Since the repair of finding D25 (known_findings.txt) make_read_only rewrites both header slots also on an instance that
+   is already read-only; it REPORTS whether the instance was writable (a second call reports false), and whatever the state
+   and the outcome no secret remains in memory. That a second call changes no observation: C12_second_call_* below. *)
+Theorem C12_call_reports_writability : forall cr c w c' w' b,
+  core_make_read_only cr c w = (c', w', Ok b) ->
+  b = match kp_secret (c_keypair c) with Some _ => true | None => false end.
+Proof. exact make_read_only_result. Qed.
+
+Theorem C12_secret_erased_in_every_case : forall cr c w c' w' r,
+  core_make_read_only cr c w = (c', w', r) ->
+  kp_secret (c_keypair c') = None /\ kp_secret (hd_keypair (c_header c')) = None.
+Proof. exact make_read_only_erases_any. Qed.
 
 Theorem C12_secret_erased : forall cr c w c' w' r sk,
   kp_secret (c_keypair c) = Some sk ->
@@ -37,9 +52,199 @@ Theorem C12_header_without_secret : forall h,
     [0] ++ enc_header_tree (hd_tree h) ++ [0] ++ enc_uint (hd_contig h).
 Proof. exact enc_header_secret_none. Qed.
 
+Theorem C12_make_read_only_correct :
+  forall cr : crypto,
+         OplogFacts.crc_ok cr ->
+         (forall x : bytes, Datatypes.length (cr_hash cr x) = 32%nat) ->
+         (forall x : bytes, all_zero (cr_hash cr x) = false) ->
+         (forall x : bytes, bytes_ok (cr_hash cr x) = true) ->
+         forall (c : core) (d : disk) (j : list sop) (ev : list event) (bs : list bytes),
+         DInv cr c d bs ->
+         let bits := ol_bits (c_oplog c) in
+         exists d' : disk,
+           core_make_read_only cr c {| w_disk := d; w_journal := j; w_events := ev |} =
+           (ro_core c, {| w_disk := d'; w_journal := rev (ro_ops cr c) ++ j; w_events := ev |},
+            Ok (i_writeable (core_info c))) /\
+           apply_sops d (ro_ops cr c) = Some d' /\
+           DInv cr (ro_core c) d' bs /\
+           d_data d' = d_data d /\
+           f_content (d_oplog d') =
+           slot_bytes cr (negb (fst bits)) (ro_header c) ++ slot_bytes cr (negb (snd bits)) (ro_header c) /\
+           f_len (d_oplog d') = ENTRIES_OFFSET.
+Proof. exact make_read_only_correct. Qed.
+
+Theorem C12_make_read_only_observations :
+  forall cr : crypto,
+         OplogFacts.crc_ok cr ->
+         (forall x : bytes, Datatypes.length (cr_hash cr x) = 32%nat) ->
+         (forall x : bytes, all_zero (cr_hash cr x) = false) ->
+         (forall x : bytes, bytes_ok (cr_hash cr x) = true) ->
+         forall (c : core) (d : disk) (j : list sop) (ev : list event) (bs : list bytes),
+         DInv cr c d bs ->
+         exists (c' : core) (w' : world),
+           core_make_read_only cr c {| w_disk := d; w_journal := j; w_events := ev |} =
+           (c', w', Ok (i_writeable (core_info c))) /\
+           w_events w' = ev /\
+           DInv cr c' (w_disk w') bs /\
+           same_reads c d c' (w_disk w') /\
+           i_writeable (core_info c') = false /\
+           c_keypair c' = {| kp_public := kp_public (c_keypair c); kp_secret := None |} /\
+           kp_secret (hd_keypair (c_header c')) = None /\
+           ol_entries_len (c_oplog c') = 0 /\
+           ol_entries_bytes (c_oplog c') = 0 /\
+           f_len (d_oplog (w_disk w')) = 8192 /\
+           f_content (d_oplog (w_disk w')) = ro_oplog_file cr c /\
+           (forall (f : option bool) (batch : list bytes) (w : world),
+            core_append cr f batch c' w = (c', w, Err NotWritable)).
+Proof. exact make_read_only_observations. Qed.
+
+Theorem C12_second_call_changes_no_observation :
+  forall cr : crypto,
+         OplogFacts.crc_ok cr ->
+         (forall x : bytes, Datatypes.length (cr_hash cr x) = 32%nat) ->
+         (forall x : bytes, all_zero (cr_hash cr x) = false) ->
+         (forall x : bytes, bytes_ok (cr_hash cr x) = true) ->
+         forall (c : core) (d : disk) (j : list sop) (ev : list event) (bs : list bytes),
+         DInv cr c d bs ->
+         exists (c1 : core) (w1 : world) (c2 : core) (w2 : world),
+           core_make_read_only cr c {| w_disk := d; w_journal := j; w_events := ev |} =
+           (c1, w1, Ok (i_writeable (core_info c))) /\
+           core_make_read_only cr c1 w1 = (c2, w2, Ok false) /\
+           w_events w2 = ev /\
+           DInv cr c2 (w_disk w2) bs /\
+           same_reads c d c2 (w_disk w2) /\
+           i_writeable (core_info c2) = false /\
+           kp_secret (c_keypair c2) = None /\
+           kp_secret (hd_keypair (c_header c2)) = None /\
+           ol_entries_len (c_oplog c2) = 0 /\
+           ol_entries_bytes (c_oplog c2) = 0 /\
+           f_len (d_oplog (w_disk w2)) = 8192 /\ f_content (d_oplog (w_disk w2)) = ro_oplog_file cr c1.
+Proof. exact make_read_only_twice. Qed.
+
+Theorem C12_reopens_read_only :
+  forall cr : crypto,
+         OplogFacts.crc_ok cr ->
+         (forall x : bytes, Datatypes.length (cr_hash cr x) = 32%nat) ->
+         (forall x : bytes, all_zero (cr_hash cr x) = false) ->
+         (forall x : bytes, bytes_ok (cr_hash cr x) = true) ->
+         forall (c : core) (d : disk) (j : list sop) (ev : list event) (bs : list bytes),
+         DInv cr c d bs ->
+         exists (c' : core) (w' : world) (c'' : core),
+           core_make_read_only cr c {| w_disk := d; w_journal := j; w_events := ev |} =
+           (c', w', Ok (i_writeable (core_info c))) /\
+           core_open cr None true (w_disk w') = (w_disk w', [], Ok c'') /\
+           DInv cr c'' (w_disk w') bs /\
+           c_keypair c'' = {| kp_public := kp_public (c_keypair c); kp_secret := None |} /\
+           hd_keypair (c_header c'') = {| kp_public := kp_public (c_keypair c); kp_secret := None |} /\
+           i_writeable (core_info c'') = false /\
+           same_reads c d c'' (w_disk w') /\
+           (forall (f : option bool) (batch : list bytes) (w : world),
+            core_append cr f batch c'' w = (c'', w, Err NotWritable)) /\
+           (forall (j2 : list sop) (ev2 : list event),
+            exists (c3 : core) (w3 : world),
+              core_make_read_only cr c'' {| w_disk := w_disk w'; w_journal := j2; w_events := ev2 |} =
+              (c3, w3, Ok false) /\
+              DInv cr c3 (w_disk w3) bs /\
+              same_reads c d c3 (w_disk w3) /\
+              i_writeable (core_info c3) = false /\
+              f_len (d_oplog (w_disk w3)) = 8192 /\ f_content (d_oplog (w_disk w3)) = ro_oplog_file cr c'').
+Proof. exact read_only_reopen. Qed.
+
+Theorem C12_open_with_key_pair_rejected :
+  forall (cr : crypto) (kp : keypair) (d : disk),
+         core_open cr (Some kp) true d = (d, [], Err BadArgument).
+Proof. exact open_with_keypair_rejected. Qed.
+
+Theorem C12_oplog_file_after :
+  forall cr : crypto,
+         OplogFacts.crc_ok cr ->
+         (forall x : bytes, Datatypes.length (cr_hash cr x) = 32%nat) ->
+         (forall x : bytes, all_zero (cr_hash cr x) = false) ->
+         (forall x : bytes, bytes_ok (cr_hash cr x) = true) ->
+         forall (c : core) (d : disk) (j : list sop) (ev : list event) (bs : list bytes),
+         DInv cr c d bs ->
+         exists (c' : core) (w' : world),
+           core_make_read_only cr c {| w_disk := d; w_journal := j; w_events := ev |} =
+           (c', w', Ok (i_writeable (core_info c))) /\
+           f_len (d_oplog (w_disk w')) = 8192 /\
+           f_content (d_oplog (w_disk w')) = ro_oplog_file cr c /\
+           d_data (w_disk w') = d_data d /\
+           (forall s : option bytes, ro_oplog_file cr c = ro_oplog_file cr (with_secret c s)).
+Proof. exact read_only_oplog_file. Qed.
+
+Theorem C12_crash_inside_recovers :
+  forall cr : crypto,
+         OplogFacts.crc_ok cr ->
+         (forall x : bytes, Datatypes.length (cr_hash cr x) = 32%nat) ->
+         (forall x : bytes, all_zero (cr_hash cr x) = false) ->
+         (forall x : bytes, bytes_ok (cr_hash cr x) = true) ->
+         forall (c : core) (d : disk) (bs : list bytes) (sk : bytes) (k : nat),
+         DInv cr c d bs ->
+         kp_secret (c_keypair c) = Some sk ->
+         let np := (Datatypes.length (page_ops (c_bitfield c)) + Datatypes.length (node_ops (c_tree c)))%nat in
+         exists dk : disk,
+           apply_sops d (firstn k (ro_ops cr c)) = Some dk /\
+           (exists (dk' : disk) (ops : list sop) (ck : core),
+              core_open cr None true dk = (dk', ops, Ok ck) /\
+              d_tree dk' = d_tree dk /\
+              d_data dk' = d_data dk /\
+              d_bitfield dk' = d_bitfield dk /\
+              WInv cr ck dk' bs /\
+              same_reads c d ck dk' /\
+              hd_keypair (c_header ck) = c_keypair ck /\
+              kp_public (c_keypair ck) = kp_public (c_keypair c) /\
+              ((k <= np)%nat -> c_keypair ck = c_keypair c /\ i_writeable (core_info ck) = true) /\
+              ((np < k)%nat ->
+               c_keypair ck = {| kp_public := kp_public (c_keypair c); kp_secret := None |} /\
+               i_writeable (core_info ck) = false)).
+Proof. exact make_read_only_crash. Qed.
+
+Theorem C12_secret_gone_after_any_completed_call :
+  forall cr : crypto,
+         OplogFacts.crc_ok cr ->
+         (forall x : bytes, Datatypes.length (cr_hash cr x) = 32%nat) ->
+         (forall x : bytes, all_zero (cr_hash cr x) = false) ->
+         (forall x : bytes, bytes_ok (cr_hash cr x) = true) ->
+         forall (c : core) (d : disk) (bs : list bytes) (sk : bytes) (k : nat),
+         DInv cr c d bs ->
+         kp_secret (c_keypair c) = Some sk ->
+         exists dk : disk,
+           apply_sops d (firstn k (ro_ops cr c)) = Some dk /\
+           (exists (dk' : disk) (ops : list sop) (ck : core),
+              core_open cr None true dk = (dk', ops, Ok ck) /\
+              same_reads c d ck dk' /\
+              (forall (j : list sop) (ev : list event),
+               exists (c2 : core) (d2 : disk),
+                 core_make_read_only cr ck {| w_disk := dk'; w_journal := j; w_events := ev |} =
+                 (c2, {| w_disk := d2; w_journal := rev (ro_ops cr ck) ++ j; w_events := ev |},
+                  Ok (i_writeable (core_info ck))) /\
+                 f_len (d_oplog d2) = 8192 /\
+                 f_content (d_oplog d2) = ro_oplog_file cr ck /\
+                 (forall s : option bytes, ro_oplog_file cr ck = ro_oplog_file cr (with_secret ck s)) /\
+                 DInv cr c2 d2 bs /\
+                 same_reads c d c2 d2 /\
+                 i_writeable (core_info c2) = false /\
+                 kp_secret (c_keypair c2) = None /\
+                 kp_secret (hd_keypair (c_header c2)) = None /\
+                 kp_public (c_keypair c2) = kp_public (c_keypair c))).
+Proof. exact secret_gone_after_any_completed_call. Qed.
+
 Print Assumptions C12_not_writable.
-Print Assumptions C12_second_call_noop.
+Print Assumptions C12_call_reports_writability.
+Print Assumptions C12_secret_erased_in_every_case.
 Print Assumptions C12_secret_erased.
 Print Assumptions C12_secret_independent.
 Print Assumptions C12_header_without_secret.
 Print Assumptions toy_read_only.
+Print Assumptions ReadOnly.toy_read_only_run.
+Print Assumptions ReadOnly.toy_secret_gone.
+Print Assumptions ReadOnly.toy_secret_gone_after_crash_then_second_call.
+Print Assumptions ReadOnly.toy_state_DInv.
+Print Assumptions C12_make_read_only_correct.
+Print Assumptions C12_make_read_only_observations.
+Print Assumptions C12_second_call_changes_no_observation.
+Print Assumptions C12_reopens_read_only.
+Print Assumptions C12_open_with_key_pair_rejected.
+Print Assumptions C12_oplog_file_after.
+Print Assumptions C12_crash_inside_recovers.
+Print Assumptions C12_secret_gone_after_any_completed_call.
